@@ -130,9 +130,12 @@ Section Inv5.
   Qed.
 
   (* a value accepted as a set message of (n, c, sub-type) with some ack is accepted with any ack *)
+  Lemma vld_ack n c ty a a' s p : vld (mkMsg n c ty a s p) = true -> (a' = 0 \/ a' = 1) ->
+    vld (mkMsg n c ty a' s p) = true.
+  Proof. rewrite !vld_spec. intros (A & B & C & D & E & F) H. repeat split; try assumption; lia. Qed.
   Lemma vld_set_ack n c a a' s p : vld (mkMsg n c 1 a s p) = true -> (a' = 0 \/ a' = 1) ->
     vld (mkMsg n c 1 a' s p) = true.
-  Proof. rewrite !vld_spec. intros (A & B & C & D & E & F) H. repeat split; try assumption; lia. Qed.
+  Proof. apply vld_ack. Qed.
 
   (* OTA responses: same header as the validated stream request, sub-type 1 / 3, any text *)
   Lemma vld_stream_response n c a s s' p p' : vld (mkMsg n c 4 a s p) = true -> (s' = 1 \/ s' = 3) ->
